@@ -20,6 +20,12 @@ SUMMARIES = {
  ('C12','mutant2'): 'do_handle does not watch stopped() for requests that carry a timeout header: abandoned RPCs with a deadline keep their handler until the deadline',
  ('C14','mutant1'): 'verify_client_cert: alternate names checked with .any(|v| v.is_ok()) on a Result<bool>: with an alternate name configured any self-signed client certificate is accepted',
  ('C14','mutant2'): 'ExpectedCertVerifier (pinned dial) no longer delegates to CertVerifier: the certificate is not checked for the dialled network name',
+ ('C18','mutant1'): 'InflightLimit::call garbage-collects the peer entry after a request when available_permits()+1 == max (read as "I was the last"): with a queued waiter the permit was handed over, the entry is dropped, the waiter runs on the orphaned semaphore and the next arrival gets a fresh one',
+ ('C16','mutant1'): 'Router::call retries a MatchError::ExtraTrailingSlash with the trailing slash stripped: "/echo/" is served by the "/echo" service instead of NotFound',
+ ('C10','mutant1'): 'ActivePeersInner::len counts only inbound connections: outbound (explicit or background) connections stop counting towards the limit',
+ ('C11','mutant1'): 'try_parse_timeout maps a header of exactly "0" to "no header": a zero deadline falls back to the local default (or none)',
+ ('C01','mutant1'): 'Connection::try_peer_id takes the LAST certificate of the chain (chain.pop()) instead of the end-entity one: a client presenting [cert(A), cert(X)] is attributed X',
+ ('C05','mutant1'): 'the handler exit path removes the peer BY ID when its connection was closed locally: the tie-break loser, once closed, takes the winning connection with it',
 }
 m = os.path.join(wt, 'out', mut)
 txt = open(os.path.join(m, 'demo.txt')).read()
